@@ -244,7 +244,9 @@ variable [Add α] [Sub α] [Mul α] [Div α] [Neg α] [OfNat α 0] [OfNat α 1] 
 theorem symv_size {A : Csc α} {y x r : Array α} {a b : α} (h : symv A y x a b = .ok r) : r.size = y.size := by
   unfold symv at h
   extract_lets y0 jp1 jp2 jp3 at h
-  have hy0 : y0.size = y.size := Array.size_map ..
+  have hy0 : y0.size = y.size := by
+    show (if b == 0 then y.map (fun _ => (0 : α)) else y.map (fun v => v * b)).size = y.size
+    split <;> exact Array.size_map ..
   clear_value y0
   jp_step jp3
   jp_step jp2
@@ -1176,10 +1178,16 @@ theorem KShape.trans {A B C : KktSys α} (h1 : KShape A B) (h2 : KShape B C) : K
   ⟨h1.x1.trans h2.x1, h1.z1.trans h2.z1, h1.x2.trans h2.x2, h1.z2.trans h2.z2, h1.workx.trans h2.workx,
     h1.workz.trans h2.workz, h1.workConic.trans h2.workConic⟩
 
+theorem scalaropFrom_size (x : Array α) (op : α → α) (v : Array α) : (Vec.scalaropFrom x op v).size = x.size := by
+  unfold Vec.scalaropFrom
+  simp only [List.size_toArray, List.length_append, List.length_map, List.length_take, List.length_drop,
+    Array.length_toList]
+  omega
+
 theorem solveConstantRhs_shape {S : KktSys α} {data : ProblemData α} {st : LinSettings α}
     {r : Bool × KktSys α} (h : S.solveConstantRhs data st = .ok r) : KShape S r.2 := by
   unfold KktSys.solveConstantRhs at h
-  obtain ⟨workx, hwx, h⟩ := bind_ok_inv h
+  dsimp only at h
   obtain ⟨K, _, h⟩ := bind_ok_inv h
   obtain ⟨⟨ok, lx, lz, K2⟩, _, h⟩ := bind_ok_inv h
   dsimp only at h
@@ -1187,9 +1195,9 @@ theorem solveConstantRhs_shape {S : KktSys α} {data : ProblemData α} {st : Lin
   · obtain ⟨x2, hx2, h⟩ := bind_ok_inv h
     obtain ⟨z2, hz2, h⟩ := bind_ok_inv h
     cases h
-    exact ⟨rfl, rfl, (copyInto_size hx2).symm, (copyInto_size hz2).symm, (axpbyE_size hwx).symm, rfl, rfl⟩
+    exact ⟨rfl, rfl, (copyInto_size hx2).symm, (copyInto_size hz2).symm, (scalaropFrom_size _ _ _).symm, rfl, rfl⟩
   · cases h
-    exact ⟨rfl, rfl, rfl, rfl, (axpbyE_size hwx).symm, rfl, rfl⟩
+    exact ⟨rfl, rfl, rfl, rfl, (scalaropFrom_size _ _ _).symm, rfl, rfl⟩
 
 theorem kktUpdate_shape {S : KktSys α} {data : ProblemData α} {cones : List (ConeSt α)} {st : LinSettings α}
     {r : Bool × KktSys α} (h : S.update data cones st = .ok r) : KShape S r.2 := by
@@ -1272,11 +1280,12 @@ theorem solveInitialPoint_shape {S : KktSys α} {vars : Vars α} {data : Problem
       obtain ⟨s, hs, h⟩ := bind_ok_inv h
       obtain ⟨p, hp, h⟩ := bind_ok_inv h
       cases hp
-      obtain ⟨workx2, hwx2, h⟩ := bind_ok_inv h
+      dsimp only at h
       obtain ⟨K3, _, h⟩ := bind_ok_inv h
       obtain ⟨⟨ok2, lx2, lz2, K4⟩, _, h⟩ := bind_ok_inv h
       have hz : ∃ z : Array α, z.size = vars.z.size ∧ r = (ok2, { x := x, s := Vec.negate s, z := z, τ := vars.τ, κ := vars.κ },
-          { kktsolver := K4, x1 := S.x1, z1 := S.z1, x2 := S.x2, z2 := S.z2, workx := workx2,
+          { kktsolver := K4, x1 := S.x1, z1 := S.z1, x2 := S.x2, z2 := S.z2,
+            workx := Vec.scalaropFrom (Array.map (fun _ => (0 : α)) S.workx) (fun q => -q) data.q,
             workz := Array.map (fun _ => (0 : α)) workz, workConic := S.workConic }) := by
         cases ok2 with
         | false =>
@@ -1294,8 +1303,8 @@ theorem solveInitialPoint_shape {S : KktSys α} {vars : Vars α} {data : Problem
       refine ⟨⟨(copyInto_size hx).symm, ?_, hz.symm⟩, rfl, rfl, rfl, rfl, ?_, ?_, rfl⟩
       · show vars.s.size = (Vec.negate s).size
         rw [hneg, copyInto_size hs]
-      · show S.workx.size = workx2.size
-        rw [axpbyE_size hwx2]; exact hwx.symm
+      · show S.workx.size = (Vec.scalaropFrom (Array.map (fun _ => (0 : α)) S.workx) (fun q => -q) data.q).size
+        rw [scalaropFrom_size, Array.size_map]
       · show S.workz.size = (Array.map _ workz).size
         rw [Array.size_map, copyInto_size hwz]
   · -- QP initialization
